@@ -19,7 +19,7 @@ PROP = "C18"
 LEVEL = "exploration"
 CASES = {"quick": 120, "thorough": 30000}
 SHARDS = {"quick": 8, "thorough": 16}
-TIMEOUT = {"quick": 300, "thorough": 3400}
+TIMEOUT = {"quick": 900, "thorough": 6000}
 ANCHORS = [
     "mapping_service/api.py:MappingServiceGraph._expand_pair_all", "mapping_service/api.py:MappingServiceGraph.triples",
     "mapping_service/rdflib_custom.py:MappingServiceSPARQLProcessor.query", "mapping_service/rdflib_custom.py:_optimize_node",
@@ -131,10 +131,17 @@ def run_case(ctx, g, rng):
         u = ups.pop()
         us = tuple(ups.pop() for _ in range(rng.choice([0, 1, 1, 2])) if len(ups) > 2)
         recs.append(spec.Rec(f"p{i}", u, (f"P{i}",) if rng.random() < 0.4 else (), us, None))
-    conv, how = gen.build(api, recs, ":", rng)  # constructed, registered record by record, or grown through merges
+    # "for every converter": the converter's CURIE delimiter is its own business - the service speaks URIs (seed C18-Q: a
+    # reference written with ':' and re-parsed with the converter's delimiter); with another delimiter a prefix may
+    # contain a colon
+    d = rng.choice([":", ":", ":", "/", "_", "::"])
+    if d not in (":", "::") and rng.random() < 0.5:
+        recs[0] = recs[0]._replace(prefix="ns:" + recs[0].prefix)
+    S.counters[f"wl:converter-delimiter:{d}"] += 1
+    conv, how = gen.build(api, recs, d, rng)  # constructed, registered record by record, or grown through merges
     S.counters[f"wl:build:{how}"] += 1
     last = {}
-    sp = spec.SpecConverter(recs, ":")
+    sp = spec.SpecConverter(recs, d)
     w0 = {"records": [spec.rec_dict(r) for r in recs]}
     preds = rng.choice([None, None, None, [OWL_SAMEAS, SKOS_EXACT], SKOS_EXACT])
     conf = [OWL_SAMEAS] if preds is None else [preds] if isinstance(preds, str) else preds
@@ -153,7 +160,7 @@ def run_case(ctx, g, rng):
     allu = [u for r in recs for u in spec.all_u(r)]
 
     def make_query():
-        sp = spec.SpecConverter(list(spec.snapshot(conv)), ":")
+        sp = spec.SpecConverter(list(spec.snapshot(conv)), d)
         k = rng.randint(1, 3)
         uris = []
         for _ in range(k):
@@ -257,7 +264,7 @@ def run_case(ctx, g, rng):
             call(conv.add_prefix, r0.prefix, r0.uri_prefix, None, [ups.pop()], merge=True)
             call(conv.add_prefix, "late", "http://late.org/")
             recs[:] = list(spec.snapshot(conv))
-            sp = spec.SpecConverter(recs, ":")
+            sp = spec.SpecConverter(recs, d)
             allu[:] = [u for r in recs for u in spec.all_u(r)]
             w0["records"] = [spec.rec_dict(r) for r in recs]
             w0["grown_while_serving"] = True
@@ -295,7 +302,7 @@ def run_case(ctx, g, rng):
             pred = conf[0]
             cut = max(pred.rfind("#"), pred.rfind("/")) + 1
             text = f"SELECT ?s ?o WHERE {{ VALUES ?s {{ <{u}> }} ?s zzp:{pred[cut:]} ?o }}"
-            sp_now = spec.SpecConverter(list(spec.snapshot(conv)), ":")
+            sp_now = spec.SpecConverter(list(spec.snapshot(conv)), d)
             cu = sp_now.compress(u)
             want_conf = [(u, x) for x in (sp_now.expand_all(cu) or []) if valid_iri(x)] if cu is not None else []
             order = [(pred[:cut], want_conf), ("http://zz.foreign/vocab#", [])]
